@@ -16,14 +16,17 @@ def membyte(a):
     return (a * 29 + 7) & 0xFF
 
 
-def ops_menu(offs, sizes, regs):
-    S = [("st", p, o, s, r) for p in ("p", "q") for o in offs for s in sizes for r in regs]
+KVAL = 0x5A6B7C8D      # "k": a constant source (kept as raw bytes by the memory model, unlike register values)
+
+
+def ops_menu(offs, sizes, regs, konst=False):
+    S = [("st", p, o, s, r) for p in ("p", "q") for o in offs for s in sizes for r in (tuple(regs) + (("k",) if konst else ()))]
     L = [("ld", r, p, o, s) for r in regs for p in ("p", "q") for o in offs for s in sizes]
     return S, L
 
 
 def programs(tier):
-    S, L = ops_menu((0, 1, 2), (8, 16, 32), ("r1", "r2"))
+    S, L = ops_menu((0, 1, 2), (8, 16, 32), ("r1", "r2"), konst=True)
     A = S + L
     out = [[a] for a in A] + [[a, b] for a in A for b in A]
     if tier == "quick":
@@ -75,7 +78,7 @@ def ref_run(prog, qv, e):
         mem[a] = membyte(a)
     for a in range(QFAR - 8, QFAR + 24):
         mem[a] = membyte(a)
-    regs = {"r1": R1, "r2": R2, "p": PBASE, "q": qv}
+    regs = {"r1": R1, "r2": R2, "p": PBASE, "q": qv, "k": KVAL}
     for op in prog:
         if op[0] == "st":
             _, p, o, s, r = op
@@ -115,9 +118,10 @@ def build_map(prog, e):
     for op in prog:
         if op[0] == "st":
             _, p, o, s, r = op
-            src = R[r] if s >= 32 else R[r][0:s]
+            base_src = E.cst(KVAL, 32) if r == "k" else R[r]
+            src = base_src if s >= 32 else base_src[0:s]
             if s > 32:
-                src = R[r].zeroextend(s)
+                src = base_src.zeroextend(s)
             m[E.mem(R[p], s, disp=o, endian=e)] = m(src)
         else:
             _, r, p, o, s = op
